@@ -58,6 +58,8 @@ func varsOf(tpl string) []string {
 	return out
 }
 
+var reVarSuffix = regexp.MustCompile(`\}[^/]`)
+
 func tplRegexp(tpl string) *regexp.Regexp {
 	parts := reVar.Split(tpl, -1)
 	var b strings.Builder
@@ -173,6 +175,18 @@ func check(c Case) (o h.Outcome) {
 		o.Discard = true
 		o.Class("doc-invalid")
 		return
+	}
+	if c.Router == "legacy" {
+		// pathpattern documents "{variable}" as matching "until next '/' or end-of-string": a literal
+		// suffix after a variable inside one segment ("/a/{x}.json") is outside what the legacy router
+		// supports, and outside "segment values" in the property; such families are left to gorillamux
+		for _, t := range c.Templates {
+			if reVarSuffix.MatchString(t.Path) {
+				o.Discard = true
+				o.Class("legacy:variable-with-suffix-unsupported")
+				return
+			}
+		}
 	}
 	var router routers.Router
 	var rerr error
@@ -292,7 +306,7 @@ func check(c Case) (o h.Outcome) {
 
 // ---------------------------------------------------------------------------------------
 
-var tplPool = []string{"/a", "/a/{x}", "/a/b", "/{x}", "/{x}/b", "/a/{x}/b", "/a/{x}/{y}", "/{x}/{y}", "/b/{y}", "/b", "/a/b/c", "/a/{x}/c", "/{x}/b/{y}", "/a/b/{y}"}
+var tplPool = []string{"/a", "/a/{x}", "/a/b", "/{x}", "/{x}/b", "/a/{x}/b", "/a/{x}/{y}", "/{x}/{y}", "/b/{y}", "/b", "/a/b/c", "/a/{x}/c", "/{x}/b/{y}", "/a/b/{y}", "/a/p-{x}", "/a/p-b", "/a/{x}.json", "/a/b.json"}
 var methodSets = [][]string{{"GET"}, {"POST"}, {"GET", "POST"}, {"GET", "PUT", "DELETE"}}
 var servers = []string{"none", "/v1", "/api/{ver}", "http://h.example/base"}
 var values = []string{"1", "abc", "a.b", "x-y_z~", "b", "a"}
@@ -384,7 +398,7 @@ func requestsFor(c Case) []Case {
 
 func enumerate(shard, nshards int, yield func(Case)) {
 	idx := 0
-	small := []string{"/a", "/a/{x}", "/a/b", "/{x}", "/{x}/b", "/b/{y}", "/a/b/c", "/a/{x}/b"}
+	small := []string{"/a", "/a/{x}", "/a/b", "/{x}", "/{x}/b", "/b/{y}", "/a/b/c", "/a/{x}/b", "/a/p-{x}", "/a/p-b"}
 	for _, router := range []string{"gorillamux", "legacy"} {
 		for _, srv := range servers {
 			// all families of 1..2 templates (3 in the thorough tier) with a fixed method assignment
